@@ -204,3 +204,50 @@ func (c *Ctx) callsOnlyIn(P, rule, pkg, callRe string, allowed []string, min int
 	}
 	return *o
 }
+
+// loopsExitOnlyAtHeader: one obligation — in fn every loop is left only through its header (the test that
+// the iteration is exhausted) or by a panic: no break and no return from inside a body. A sweep that must
+// visit every entry of a queue cannot stop at the first one it dislikes.
+func (c *Ctx) loopsExitOnlyAtHeader(P, rule, fnName, why string) Obligation {
+	o := c.obl(P, rule, fnName, "every loop of "+fnName+" runs to the end of what it ranges over: no break or return from inside a body — "+why)
+	fn := c.A.Fn(fnName)
+	if fn == nil {
+		o.unresolved("not found")
+		return *o
+	}
+	o.Pos = c.A.FnPos(fn)
+	loops := naturalLoops(fn)
+	if len(loops) == 0 {
+		o.unresolved("%s has no loop any more: anchor does not resolve", fnName)
+		return *o
+	}
+	for _, li := range loops {
+		for b := range li.Blocks {
+			o.Facts++
+			if b == li.Header {
+				continue
+			}
+			if _, isRet := b.Instrs[len(b.Instrs)-1].(*ssa.Return); isRet {
+				o.fail(c.A.Pos(b.Instrs[len(b.Instrs)-1].Pos()), "a return inside the loop headed at block b%d ends the sweep early", li.Header.Index)
+				continue
+			}
+			for _, s := range b.Succs {
+				if li.Blocks[s] {
+					continue
+				}
+				// leaving the loop from a body block: allowed only into a block that panics
+				if len(s.Instrs) > 0 {
+					if _, isPanic := s.Instrs[len(s.Instrs)-1].(*ssa.Panic); isPanic {
+						continue
+					}
+				}
+				pos := c.A.Pos(b.Instrs[len(b.Instrs)-1].Pos())
+				if pos == "-" {
+					pos = o.Pos
+				}
+				o.fail(pos, "block b%d inside the loop headed at b%d jumps out of it (a break): the remaining entries are not visited in this block", b.Index, li.Header.Index)
+			}
+		}
+	}
+	return *o
+}
